@@ -91,6 +91,7 @@ def check(prop, tier, seed):
                                 stress_fraction=0.3)
     items += [{"b": k} for k in range(len(universe.battery()))]       # ties / plateaus: where "walk across the plateau" tweaks bite
     items += [{"s": k} for k in range(len(universe.small_population_battery()))]
+    items += [{"y": k} for k in range(len(universe.types_battery()))]
     items += [{"v": k} for k in universe.boundary_indices()]
     pairs = common.run_campaign(rep, items, opts={"utils": True, "seed": seed})
     counters, opts_seen = common.collect(rep, prop, pairs, lambda o: o["outcome"] == "ok" and o["stats"].get("snap_agents", 0) > 0)
